@@ -125,6 +125,12 @@ Definition c13_encode_bad (l : list ecase) : list N :=
    implementation made while decoding it ---- *)
 Record icase := Ic { i_in : bytes; i_peak : int }.
 Definition list_max (l : list N) : N := fold_left N.max l 0.
+(* property checker on the implementation's output: the largest single allocation request made
+   while decoding is in proportion to the input (64 bytes per input byte -- serde's buffered
+   Content is 32 bytes per element and vectors grow by doubling -- plus 4 KiB of slack for
+   error strings and thread bookkeeping) *)
+Definition c14_peak_bad (l : list icase) : list N :=
+  find_idx (fun c => 64 * N.of_nat (length (i_in c)) + 4096 <? nz (i_peak c)) l.
 (* the model says the library asked for more than the implementation's meter saw *)
 Definition instr_diff (l : list icase) : list N :=
   find_idx (fun c => nz (i_peak c) <? list_max (o_allocs (decode_instr (i_in c)))) l.
